@@ -23,7 +23,7 @@ time; the client keeps its side open until the last expected reply. Oracle (diff
 equals, byte for byte, the reply stream obtained from direct sockets to the same service(s) - in resolver mode \
 per request from the service the resolver names, GetInfo from the resolver itself - and, after the client closes \
 its side, the bridge exits with status 0. Variant `close right after the last request`: only exit status 0 and \
-`stdout is a prefix of the expected stream` are asserted. Further variants: the service spells its JSON with blanks; the client closes while a 300 ms reply is pending; the client hangs up altogether (stdin and stdout) while a 400 ms reply is pending - exit status 0 in every mode; bytes that arrive only after the client closed its side make the session slow (twice in a row: stuck). Non-trivial: a session that switches target services, \
+`stdout is a prefix of the expected stream` are asserted. Further variants: the service spells its JSON with blanks; the client closes while a 300 ms reply is pending; the client hangs up altogether (stdin and stdout) while a 400 ms reply is pending - exit status 0 in every mode; bytes that arrive only after the client closed its side make the session slow (twice in a row: stuck); in the three copying modes the client closes its sending side while the service is busy with a 4 s call: the bridge stops (more than 2.5 s, twice in a row, is waiting for the service). Non-trivial: a session that switches target services, \
 streams, or upgrades; distinct by (mode, sequence, client behaviour).";
 
 #[derive(Clone, Copy, Debug, PartialEq, Eq, Hash)]
@@ -295,6 +295,9 @@ impl Out {
     }
 }
 
+/// RLIMIT_NOFILE for the next bridge processes (0: inherit)
+static NOFILE_LIMIT: std::sync::atomic::AtomicU64 = std::sync::atomic::AtomicU64::new(0);
+
 fn spawn_bridge(w: &World, mode: Mode, stderr_file: &std::path::Path) -> Result<Child, Fail> {
     let exe = repo_bin("varlink").ok_or_else(|| Fail::new("HARNESS/no-varlink-binary", "VERIF_REPO_BIN/varlink missing".to_string()))?;
     let svc = harness_bin("vl-svc");
@@ -317,6 +320,17 @@ fn spawn_bridge(w: &World, mode: Mode, stderr_file: &std::path::Path) -> Result<
     {
         use std::os::unix::process::CommandExt;
         cmd.process_group(0);
+        let lim = NOFILE_LIMIT.load(std::sync::atomic::Ordering::SeqCst);
+        if lim > 0 {
+            // a modest descriptor limit for this bridge process (sessions with hundreds of calls)
+            unsafe {
+                cmd.pre_exec(move || {
+                    let r = libc::rlimit { rlim_cur: lim, rlim_max: lim };
+                    libc::setrlimit(libc::RLIMIT_NOFILE, &r);
+                    Ok(())
+                });
+            }
+        }
     }
     // stderr goes to a file: a socket-activated service inherits it and would keep a pipe open
     let ef = std::fs::File::create(stderr_file).map_err(|e| Fail::new("HARNESS/io", e.to_string()))?;
@@ -626,6 +640,100 @@ fn session_strategy() -> impl Strategy<Value = Session> {
         })
 }
 
+/// The client closes its sending side while the service is busy with a call that takes `busy_ms`: in the
+/// modes that copy bytes between the two sides the bridge stops at once (it has forwarded all it received);
+/// it does not wait for the service to close by itself. Returns the time the bridge took to exit.
+fn stop_time_after_client_close(w: &World, mode: Mode, busy_ms: u64) -> Result<Option<(Duration, Option<i32>)>, Fail> {
+    static SEQ: std::sync::atomic::AtomicU64 = std::sync::atomic::AtomicU64::new(0);
+    let stderr_file = w._scratch.path.join(format!("bridge-stop-{}.stderr", SEQ.fetch_add(1, std::sync::atomic::Ordering::SeqCst)));
+    let mut child = spawn_bridge(w, mode, &stderr_file)?;
+    let mut stdin = child.stdin.take().unwrap();
+    let out = Out::new(child.stdout.take().unwrap());
+    // one answered call first, so that the session is established end to end
+    let first = json!({"method": "org.verif.test.Echo", "parameters": {"token": "stop-probe", "n": 1}});
+    let _ = stdin.write_all(&encode(&first, Style::Compact));
+    let _ = stdin.flush();
+    if !out.wait_len(10, Duration::from_secs(10)) {
+        unsafe {
+            libc::kill(-(child.id() as i32), libc::SIGKILL);
+        }
+        let _ = child.kill();
+        let _ = child.wait();
+        let _ = std::fs::remove_file(&stderr_file);
+        return Ok(None);
+    }
+    let _ = stdin.write_all(&encode(&slow_request(busy_ms), Style::Compact));
+    let _ = stdin.flush();
+    std::thread::sleep(Duration::from_millis(150));
+    drop(stdin);
+    let t0 = Instant::now();
+    let res = loop {
+        match child.try_wait() {
+            Ok(Some(st)) => break Some((t0.elapsed(), st.code())),
+            Ok(None) if t0.elapsed() > Duration::from_secs(10) => break None,
+            Ok(None) => std::thread::sleep(Duration::from_millis(3)),
+            Err(_) => break None,
+        }
+    };
+    if res.is_none() {
+        unsafe {
+            libc::kill(-(child.id() as i32), libc::SIGKILL);
+        }
+        let _ = child.kill();
+        let _ = child.wait();
+    }
+    let _ = std::fs::remove_file(&stderr_file);
+    Ok(Some(res.unwrap_or((Duration::from_secs(10), None))))
+}
+
+/// Judged by repetition: the service is busy for 4 s; a bridge that needs more than 2.5 s to stop, twice in
+/// a row, waits for the service instead of stopping.
+fn stops_when_client_closes(ctx: &mut Ctx, w: &World) {
+    for mode in [Mode::Connect, Mode::Activate, Mode::InnerBridge] {
+        let tag = format!("{:?}", mode).to_lowercase();
+        ctx.case(Some(hash64(&("stop-when-client-closes", &tag))));
+        ctx.class("client-closes-while-the-service-is-busy-for-4s");
+        let mut late = vec![];
+        for _ in 0..2 {
+            match stop_time_after_client_close(w, mode, 4000) {
+                Err(f) => {
+                    ctx.violation(&f.key, &f.what, "c18-stop", json!({"stop_probe": tag}));
+                    return;
+                }
+                Ok(None) => {
+                    ctx.inconclusive(&format!("bridge[{}]: the first call of the stop probe was not answered within 10 s", tag));
+                    break;
+                }
+                Ok(Some((t, code))) => {
+                    if t > Duration::from_millis(2500) {
+                        late.push(t.as_millis());
+                        continue;
+                    }
+                    if code != Some(0) {
+                        ctx.violation(
+                            &format!("bridge[{}]/exit-status", tag),
+                            &format!("the client closed its side while the service was busy: the bridge exited with {:?}", code),
+                            "c18-stop",
+                            json!({"stop_probe": tag}),
+                        );
+                        return;
+                    }
+                    break;
+                }
+            }
+        }
+        if late.len() == 2 {
+            ctx.violation(
+                &format!("bridge[{}]/does-not-stop-when-client-closes", tag),
+                &format!("the client closed its sending side while the service was busy with a 4 s call: the bridge took {:?} ms to exit (twice) - it waits for the service instead of stopping", late),
+                "c18-stop",
+                json!({"stop_probe": tag}),
+            );
+            return;
+        }
+    }
+}
+
 fn nontrivial(s: &Session) -> bool {
     let targets: std::collections::BTreeSet<bool> = s.syms.iter().map(|x| x.kind == Kind::EchoVariant).collect();
     (s.mode == Mode::Resolver && targets.len() == 2) || s.upgrade.is_some() || s.syms.iter().any(|x| x.flag == Flag::More && x.kind == Kind::Stream2)
@@ -646,6 +754,15 @@ fn judge(w: &World, s: &Session) -> Result<Option<String>, Fail> {
 }
 
 fn replay(ctx: &mut Ctx, v: &Value) {
+    if v["case"].get("stop_probe").is_some() {
+        ctx.case(None);
+        let Some(w) = World::start(false) else {
+            ctx.inconclusive("cannot start the helper services");
+            return;
+        };
+        stops_when_client_closes(ctx, &w);
+        return;
+    }
     let s = sess_from(&v["case"]);
     ctx.case(None);
     ctx.force_sample(v["case"].clone());
@@ -653,6 +770,7 @@ fn replay(ctx: &mut Ctx, v: &Value) {
         ctx.inconclusive("cannot start the helper services");
         return;
     };
+    NOFILE_LIMIT.store(v["case"]["nofile_limit"].as_u64().unwrap_or(0), std::sync::atomic::Ordering::SeqCst);
     if let Err(f) = judge(&w, &s) {
         ctx.violation(&f.key, &f.what, "c18-replay", v["case"].clone());
     }
@@ -776,6 +894,33 @@ pub fn run(args: &Args) -> ! {
     });
     if let Some((s, f)) = r {
         ctx.violation(&f.key, &f.what, "c18", sess_json(&s));
+    }
+    if !ctx.failed() {
+        stops_when_client_closes(&mut ctx, &w);
+    }
+    if !ctx.failed() {
+        // long sessions in resolver mode (a connection per call): 400 calls, most of them oneway, through a
+        // bridge process that may hold 128 descriptors
+        for flag in [Flag::Oneway, Flag::None] {
+            let mut syms: Vec<Sym> = (0..400).map(|i| Sym { kind: if i % 7 == 3 { Kind::EchoVariant } else { Kind::Echo }, flag: if i % 5 == 4 { Flag::None } else { flag } }).collect();
+            syms.push(Sym { kind: Kind::Echo, flag: Flag::None });
+            let s = Session { mode: Mode::Resolver, syms, pipelined: true, upgrade: None, payload_pipelined: false, close_early: false, spaced: false, slow_tail: false, hangup_while_waiting: false, greet: false, greet_one_write: false, greet_late: false };
+            ctx.case(Some(hash64(&("long-session", format!("{:?}", flag)))));
+            ctx.class("resolver-mode:401-calls-under-a-128-descriptor-limit");
+            NOFILE_LIMIT.store(128, std::sync::atomic::Ordering::SeqCst);
+            let r = judge(&w, &s);
+            NOFILE_LIMIT.store(0, std::sync::atomic::Ordering::SeqCst);
+            match r {
+                Ok(Some(_)) => slow.set(slow.get() + 1),
+                Ok(None) => {}
+                Err(f) => {
+                    let mut j = sess_json(&s);
+                    j["nofile_limit"] = json!(128);
+                    ctx.violation(&f.key, &f.what, "c18", j);
+                    break;
+                }
+            }
+        }
     }
     ctx.section("slow_once_not_repeated", json!(slow.get()));
     drop(w);
